@@ -5,8 +5,8 @@
    programs and asm_wf is in Proof/A64WfProg.v.
    Ranges that matter: stack_offset p = 2048 - 8 (p + 1) for p < 256 spill slots (LDR/STR unsigned scaled offset),
    field offsets 16..72, the caller-save bracket of print (at most 17 registers: SUB SP / STR offsets below 144),
-   reference-count increments below 4096 and tag offsets 4 k for k < 1024 (ADD immediate), half-word chunks of a
-   literal (MOVZ / MOVN / MOVK, any value). *)
+   reference-count increments below 4096 (ADD immediate), tag offsets 4 k as an ADD immediate up to 4095 and through
+   TEMP2 beyond (the repaired add_and_jump), half-word chunks of a literal (MOVZ / MOVN / MOVK, any value). *)
 From Coq Require Import List ZArith NArith String Ascii Bool Lia.
 From SCC Require Import Base.Sexp Lang.AxSyn Model.ParMoves Model.Backend Model.A64
   Sem.A64Wf Sem.WfGuard Sem.WfGuard64 Generated.Constants Proof.LabelGen.
@@ -170,12 +170,27 @@ Proof.
 Qed.
 Lemma W_load_label t l : temp_enc t -> is_hash_label l = false -> W (a_load_label t l).
 Proof. intros T H. destruct t as [[n| |]|p]; cbn [temp_enc reg_enc a_load_label] in *; try contradiction; wf. Qed.
+Lemma fits_imm12 i : add_imm_fits i = true -> imm12 i = true.
+Proof. unfold add_imm_fits. intros H. apply andb_true_iff in H as [H1 H2]. apply Z.leb_le in H1, H2. apply imm12_small. lia. Qed.
+Lemma W_add_offset r i : reg_enc r -> W (add_offset r i).
+Proof.
+  intros R. unfold add_offset. destruct (add_imm_fits i) eqn:FI.
+  - pose proof (fits_imm12 i FI) as F. destruct r as [n| |]; cbn [reg_enc] in R; try contradiction. wf.
+  - apply W_app; [apply W_imm_code; exact reg_TEMP2|]. destruct r as [n| |]; cbn [reg_enc] in R; try contradiction. wf.
+Qed.
+(* the table dispatch of invoke: every offset (repaired code; the old code only below 1024 xtors: W_old_add_and_jump) *)
+Lemma W_add_and_jump t i : temp_enc t -> W (a_add_and_jump t i).
+Proof.
+  intros T. destruct t as [r|p]; cbn [temp_enc a_add_and_jump] in *.
+  - apply W_app; [apply W_add_offset; exact T|]. destruct r as [n| |]; cbn [reg_enc] in T; try contradiction. wf.
+  - apply (W_app [_]); [wf|]. apply W_app; [apply W_add_offset; exact reg_TEMP|wf].
+Qed.
 Lemma tag_imm12 k : (k < A64_XTORS_MAX)%N -> imm12 (jump_length k) = true.
 Proof. unfold A64_XTORS_MAX, jump_length. intros H. apply imm12_small. lia. Qed.
-Lemma W_add_and_jump t k : temp_enc t -> (k < A64_XTORS_MAX)%N -> W (a_add_and_jump t (jump_length k)).
+Lemma W_old_add_and_jump t k : temp_enc t -> (k < A64_XTORS_MAX)%N -> W (old_a_add_and_jump t (jump_length k)).
 Proof.
   intros T K. pose proof (tag_imm12 k K) as F.
-  destruct t as [[n| |]|p]; cbn [temp_enc reg_enc a_add_and_jump] in *; try contradiction; wf.
+  destruct t as [[n| |]|p]; cbn [temp_enc reg_enc old_a_add_and_jump] in *; try contradiction; wf.
 Qed.
 Lemma W_store_temporary t f : temp_enc t -> W (a_store_temporary t f).
 Proof. intros T. destruct t as [[n| |]|p]; cbn [temp_enc reg_enc a_store_temporary] in *; try contradiction; wf. Qed.
